@@ -32,14 +32,44 @@ from .yp_prolog_visitor import *
 from .yp_generator import *
 import contextlib
 import click
+from antlr4.error.ErrorListener import ErrorListener
 from .errors import CompilerError
+
+class _Position:
+    '''source position of a syntax error, in the shape CompilerError expects.'''
+    def __init__(self, line, column):
+        self.start = self
+        self.line = line
+        self.column = column
+
+class _SyntaxErrorListener(ErrorListener):
+    '''turns every error reported by the lexer or the parser into a CompilerError,
+    instead of printing it and continuing with a repaired input.'''
+    def __init__(self, context):
+        super().__init__()
+        self.context = context
+    def syntaxError(self, recognizer, offendingSymbol, line, column, msg, e):
+        raise CompilerError(_source_file(self.context), _Position(line, column), msg)
+
+def _source_file(ctx):
+    return getattr(ctx, 'current_source_file', '')
 
 def _compile_prolog_from_stream(inp, ctx):
     '''compiles prolog source from an antlr4 stream.'''
+    listener = _SyntaxErrorListener(ctx)
     lexer = prologLexer(inp)
+    lexer.removeErrorListeners()
+    lexer.addErrorListener(listener)
     stream = CommonTokenStream(lexer)
     parser = prologParser(stream)
+    parser.removeErrorListeners()
+    parser.addErrorListener(listener)
     tree = parser.program()
+    # the grammar rule does not end in EOF: whatever is left over is an error
+    token = stream.LT(1)
+    if token.type != Token.EOF:
+        raise CompilerError(_source_file(ctx), _Position(token.line, token.column),
+                f"unexpected input '{token.text}'")
     visitor = YPPrologVisitor(ctx)
     program = visitor.visit(tree)
     compiler = YPPrologCompiler(ctx)
